@@ -87,6 +87,7 @@ func readerScan(l *Loaded, fn *ssa.Function, fReaders *types.Var) (rng *ssa.Rang
 
 func checkC04(c *Ctx) {
 	l := c.L
+	checkVersionProbeRemoved(c, "PASS-version-probe-removed")
 	c.rule("DOM-prune-guards", "latest-version and open-reader guards dominate every deletion", 6)
 	c.rule("OWN-pruner-entry", "background pruner deletes only through deleteVersionsTo", 1)
 	c.rule("ERR-prune", "no storage error is lost inside the pruning functions", 20)
@@ -443,4 +444,65 @@ func checkOrphanWalk(c *Ctx, rule string) {
 	if nNew < 2 {
 		c.anchorMissing(rule, "fewer than 2 advances of the newer tree's iterator")
 	}
+}
+
+// checkVersionProbeRemoved (shared by C04 and C14): the storage key whose
+// existence makes a version "exist" for the first-version search of a reopened
+// database (the key hasVersion probes) is removed or re-keyed by deleteVersion
+// on every success path, and not only when the orphan walk happens to hand it
+// over: the walk skips nodes the next version shares by hash, and a
+// single-leaf root that later trees reuse as a child is such a node.
+func checkVersionProbeRemoved(c *Ctx, rule string) {
+	l := c.L
+	c.rule(rule, "deleteVersion removes the key the version search probes on every success path", 1)
+	hv := l.Func("", "*nodeDB.hasVersion")
+	dv := l.Func("", "*nodeDB.deleteVersion")
+	dfp := l.Func("", "*nodeDB.deleteFromPruning")
+	if hv == nil || dv == nil || dfp == nil {
+		c.anchorMissing(rule, "hasVersion / deleteVersion / deleteFromPruning")
+		return
+	}
+	norm := func(r string) string {
+		// ndb.nodeKey(x) is nodeKeyFormat.Key(x)
+		if strings.HasPrefix(r, "nodeKey(,") && strings.HasSuffix(r, ")") {
+			return "Key(global:nodeKeyFormat,[" + r[len("nodeKey(,"):len(r)-1] + "])"
+		}
+		return r
+	}
+	probe := ""
+	allInstrs(hv, func(in ssa.Instruction) {
+		cc := callCommon(in)
+		if cc == nil || !cc.IsInvoke() || cc.Method.Name() != "Has" || len(cc.Args) != 1 {
+			return
+		}
+		probe = norm(roleOf(l, cc.Args[0], "ndb", 0))
+	})
+	if probe == "" || !strings.Contains(probe, "arg0") {
+		c.anchorMissing(rule, "hasVersion no longer probes a key built from its version argument")
+		return
+	}
+	isDel := func(in ssa.Instruction) bool {
+		cc := callCommon(in)
+		if cc == nil || staticCallee(cc) != dfp || len(cc.Args) < 2 {
+			return false
+		}
+		return norm(roleOf(l, cc.Args[1], "ndb", 0)) == probe
+	}
+	q := mustState(dv, false, isDel, nil)
+	var badRet *ssa.Return
+	for _, r := range returnsOf(dv) {
+		if errNilness(retVal(r, errResultIndex(dv.Signature)), r.Block(), 0) > 0 {
+			continue
+		}
+		if !q(r) && badRet == nil {
+			badRet = r
+		}
+	}
+	pos := l.pos(dv.Pos())
+	if badRet != nil {
+		pos = l.ipos(badRet)
+	}
+	c.decide(rule, "deleteVersion removes the key hasVersion probes", pos, badRet == nil,
+		"every success return passes a deletion of "+probe,
+		"deleteVersion can return success without deleting "+probe+" itself (when the version has its own root record and the next version is not a reference to it, the removal is left to the orphan walk, which skips every node the next version shares): a single-leaf root that later trees reuse as a child keeps its (version,1) key, and after a restart the first-version search, which probes exactly that key, reports the deleted versions as available again")
 }
